@@ -513,6 +513,24 @@ def run(ctx):
                 ctx.ob("R-DOM", "C07.9", f_, "the Gaussian prime prior of an angle map is offered only with the auxiliary chi radius (guard: self.chi), never with a user-supplied radial parameter", ok_, f"`{src(fa_.stmt(nid_))}` under {[(src(e_), t_) for e_, t_ in guard_facts(fa_, nid_)]}", node=fa_.stmt(nid_))
     ctx.require(n_chi >= 2, f"only {n_chi} stores that switch the prime prior on in the angle reparameterisations")
     ctx.floor("C07.9", 2)
+
+    # ---- C07.10 evaluating a prior (or a bounds / likelihood wrapper) never changes the points it is given ---------------
+    # Angle.x_prime_log_prior hands field views of the prime-space live points to the functions of nessai.priors; an
+    # in-place store there rewrites the proposal's points (found: log_2d_cartesian_prior_sine clipped y in place)
+    import re as _re10
+    from ..rules.alias import _modified_in_place as _mip
+    n_ev_ = 0
+    for f_ in prog.all_functions:
+        if not (f_.module.name == "nessai.priors" or _re10.search(r"log_prior|log_prob$|log_likelihood|in_bounds|in_unit_hypercube", f_.name)):
+            continue
+        for p_ in f_.params():
+            if p_ in ("self", "cls"):
+                continue
+            n_ev_ += 1
+            m_ = _mip(f_.node, p_)
+            ctx.ob("R-PURE", "C07.10", f_, f"the evaluator does not write into its argument `{p_}`", m_ is None, f"`{src(m_)[:60]}` modifies the caller's array in place" if m_ is not None else "", node=m_)
+    ctx.require(n_ev_ >= 30, f"only {n_ev_} evaluator parameters found")
+    ctx.floor("C07.10", 30)
     ctx.assumptions += ["the algebraic identities hold on the interior of the domain (positive symbols; the measure-zero singular sets named in the property are excluded)", "sympy's simplifier is trusted for the identities it proves; an identity it cannot prove is reported as ANALYSIS-INCOMPLETE or a failed obligation, never silently passed", "numerical round-trip error, support equality of prime priors and edge points are not decided"]
 
 
